@@ -171,7 +171,11 @@ pub fn checks() -> Vec<Check> {
     for prop in ["C10", "C12"] {
         v.push(Check {
             prop,
-            parts: vec![Part { name: hotplug::SEQ.name(), xen: false, quick: 600_000, thorough: 30_000_000 }, Part { name: "S-hotplug/sequential", xen: true, quick: 200_000, thorough: 10_000_000 }],
+            parts: if prop == "C12" {
+                vec![Part { name: hotplug::SEQ.name(), xen: false, quick: 600_000, thorough: 30_000_000 }, Part { name: "S-hotplug/sequential", xen: true, quick: 200_000, thorough: 10_000_000 }, Part { name: "S-xen", xen: true, quick: 300_000, thorough: 10_000_000 }, Part { name: "S-build", xen: true, quick: 300_000, thorough: 10_000_000 }]
+            } else {
+                vec![Part { name: hotplug::SEQ.name(), xen: false, quick: 600_000, thorough: 30_000_000 }, Part { name: "S-hotplug/sequential", xen: true, quick: 200_000, thorough: 10_000_000 }]
+            },
             rule: "runs are seeded histories of up to 25 handle operations (create anonymous / file-backed / externally mapped regions incl. overlapping, adjacent, duplicate-start and top-of-address-space bases and injected mmap failures; from_regions / from_arc_regions; insert_region; remove_region with right and wrong size or address; clone; publish into a GuestMemoryAtomic; snapshot; into_inner; replace; drop of any live handle in any order), every earlier handle kept alive and re-checked after each step against a model of the region lists and of the process address space (mmap/munmap seam); distinct = distinct event-log hash; non-trivial = at least one request accepted, one refused and one handle dropped mid-history",
             assumptions: COMMON_ASSUMPTIONS.to_vec(),
             real: vec!["vm_memory GuestMemoryMmap / GuestRegionMmap / MmapRegion (build, build_raw, Drop) / GuestMemoryAtomic (compiled from /repo working tree)", "arc-swap, std Arc", "kernel mmap/munmap/memfd when the injector passes through"],
